@@ -71,6 +71,7 @@ def run(ctx: Context, col) -> None:
     # ---- R17.2: locate the fold
     folds = [x for x in subterms(Pret) if x[0] == "fold"]
     outer = [f for f in folds if f[3][0] == "app" and f[3][1] == "zeros"]
+    undecided = None
     ok2, why2 = False, "no nested fold over events and actions starting from zeros((A,S,S))"
     Pacc = None
     if outer:
@@ -81,9 +82,10 @@ def run(ctx: Context, col) -> None:
         f2 = f1[4]
         if not (f2[0] == "fold" and f2[3] == f1[5]):
             # an accumulation from zeros exists, but not as the event x action double loop this rule can read term by term
-            # (e.g. one broadcast scatter per event): neither equality nor difference with the documented sum can be shown
-            raise AnalysisError("Problem.build_transition_and_reward_matrices: P is accumulated from zeros, but not by a loop over events "
-                                f"and actions with one scatter-add each (one step is {brief(f2, 160)}); R17.2 cannot be decided")
+            # (e.g. one broadcast scatter per event): neither equality nor difference with the documented sum can be shown.
+            # The rules about the row-sum check and the normalisation do not depend on it and are still decided below.
+            undecided = ("Problem.build_transition_and_reward_matrices: P is accumulated from zeros, but not by a loop over events "
+                         f"and actions with one scatter-add each (one step is {brief(f2, 160)}); R17.2 cannot be decided")
         if f2[0] == "fold" and f2[3] == f1[5]:
             v1, c1, v2, c2 = f1[1], f1[2], f2[1], f2[2]
             step = f2[4]
@@ -103,15 +105,16 @@ def run(ctx: Context, col) -> None:
                 elif any(x[0] == "app" and x[1] == "reshape" and any(y[0] in ("shape",) or (y[0] == "app" and y[1].startswith("shape")) for y in subterms(x))
                          for x in subterms(step)):
                     # a generic flatten / unflatten through the array's own shape is outside the kernel IR: no verdict either way
-                    raise AnalysisError("Problem.build_transition_and_reward_matrices: the accumulation step reshapes an array through its own "
-                                        "runtime shape (flatten / unflatten idiom), which the kernel IR does not follow; R17.2 cannot be decided")
+                    undecided = ("Problem.build_transition_and_reward_matrices: the accumulation step reshapes an array through its own "
+                                 "runtime shape (flatten / unflatten idiom), which the kernel IR does not follow; R17.2 cannot be decided")
                 elif step[0] == "scatter":
                     why2 = "probabilities are written with .set: two events leading to the same successor overwrite each other instead of adding up"
                 else:
                     why2 = f"one step of the accumulation is {brief(step, 300)}"
             else:
                 why2 = f"loops run over {[show_norm(c) for c in (c1, c2)]}, expected every event and every action"
-    col.add("R17.2", construct, file, fn.lineno, ok2, why2, text="scatter-add accumulation")
+    if undecided is None:
+        col.add("R17.2", construct, file, fn.lineno, ok2, why2, text="scatter-add accumulation")
 
     # ---- R17.3
     guards = [g for g in I.guards if g[1].startswith("ValueError")]
@@ -180,5 +183,7 @@ def run(ctx: Context, col) -> None:
         if ok4:
             why4 = "returns (P / where(row sums > 0, row sums, 1), R)"
     col.add("R17.4", construct, file, (rets[0].lineno if rets else fn.lineno), ok4, why4, text="returned matrices")
+    if undecided is not None:
+        raise AnalysisError(undecided)
     for r_ in ("R17.1", "R17.2", "R17.3", "R17.4"):
         col.floor(r_, 1)
